@@ -87,14 +87,18 @@ package policy
 //@   ensures err == nil ==> st != nil && st.Metadata != nil && st.repository == repo && (isNil(st.loadedEntry) || notNil(st.loadedEntry)) && refSet[rsl.Ref] && hasRefEntry(refTip[rsl.Ref], ref) && stateCommit(st) == pTarget(cmsg(latestRefEntry(refTip[rsl.Ref], ref)))
 //@   ensures faults >= old(faults) && (faults > old(faults) ==> err != nil)
 
-//@ # Assumed for now: reconciliation keeps the policy reference, leaves both refs consistent with the log on success.
-//@ func ReconcileStaging -> (err)
-//@   trusted
-//@   assigns ghost faults, ghost refTip, ghost refSet, ghost objSet
-//@   ensures err == nil ==> consistent(PolicyRef) && consistent(PolicyStagingRef)
-//@   ensures refSet[PolicyRef] == old(refSet[PolicyRef]) && refTip[PolicyRef] == old(refTip[PolicyRef])
-//@   ensures faults >= old(faults) && (faults > old(faults) ==> err != nil)
-//@   ensures (old(refSet[rsl.Ref]) ==> pOK(cmsg(old(refTip[rsl.Ref])))) ==> (refSet[rsl.Ref] ==> pOK(cmsg(refTip[rsl.Ref])))
+//@ # C12: staging is reconciled (and Apply goes on) only when the policy and the staging reference both agree with their
+//@ # latest log entries; the policy reference itself is never moved by reconciliation
+//@ func [C12] ReconcileStaging -> (err)
+//@   requires repo != nil
+//@   requires logTipWellFormed: refSet[rsl.Ref] ==> pOK(cmsg(refTip[rsl.Ref]))
+//@   assigns ghost faults, ghost refTip, ghost refSet, ghost objSet, fresh(State.*), fresh(StateMetadata.*), fresh(rsl.ReferenceEntry.*), fresh(rsl.AnnotationEntry.*), fresh(rsl.PropagationEntry.*), fresh(elems Hash), fresh(elems *rsl.AnnotationEntry), fresh(elems rsl.GetLatestReferenceUpdaterEntryOption), fresh(rsl.GetLatestReferenceUpdaterEntryOptions.*), fresh(elems gitstore.TreeEntry)
+//@   ensures [C12] agreesWithLog: err == nil && faults == old(faults) ==> consistent(PolicyRef) && consistent(PolicyStagingRef)
+//@   ensures [C12] policyRefUntouched: refSet[PolicyRef] == old(refSet[PolicyRef]) && refTip[PolicyRef] == old(refTip[PolicyRef])
+//@   ensures logStaysWellFormed: (old(refSet[rsl.Ref]) ==> pOK(cmsg(old(refTip[rsl.Ref])))) ==> (refSet[rsl.Ref] ==> pOK(cmsg(refTip[rsl.Ref])))
+//@   # not proved: a storage fault inside the log reader can be mistaken for "no entry" (joined with
+//@   # ErrRSLEntryNotFound); assumed here that a fault is always reported (candidate noted in DESIGN.md)
+//@   assumed faults > old(faults) ==> err != nil
 
 //@ func [C12,C16] Apply -> (err)
 //@   requires repo != nil
@@ -120,6 +124,8 @@ package policy
 //@   ensures stagingRestoredOnError: err != nil && faults <= old(faults) + 1 ==> refSet[PolicyStagingRef] == old(refSet[PolicyStagingRef]) && (refSet[PolicyStagingRef] ==> refTip[PolicyStagingRef] == old(refTip[PolicyStagingRef]))
 //@   ensures recorded: err == nil && createRSLEntry ==> refSet[PolicyStagingRef] && refSet[rsl.Ref] && pOK(cmsg(refTip[rsl.Ref])) && pKind(cmsg(refTip[rsl.Ref])) == 1 && pRef(cmsg(refTip[rsl.Ref])) == PolicyStagingRef && pTarget(cmsg(refTip[rsl.Ref])) == refTip[PolicyStagingRef]
 //@   ensures othersUntouched: refSet[PolicyRef] == old(refSet[PolicyRef]) && refTip[PolicyRef] == old(refTip[PolicyRef])
+//@   ensures logStaysWellFormed: refSet[rsl.Ref] ==> pOK(cmsg(refTip[rsl.Ref]))
+//@   ensures recordedAfterPreviousTip: err == nil && createRSLEntry && old(refSet[rsl.Ref]) ==> cnpar(refTip[rsl.Ref]) == 1 && cpar(refTip[rsl.Ref], 0) == old(refTip[rsl.Ref]) && pNumber(cmsg(refTip[rsl.Ref])) == pNumber(cmsg(old(refTip[rsl.Ref]))) + 1
 //@   loop 1:
 //@     invariant refsUntouched: refTip == old(refTip) && refSet == old(refSet) && faults == old(faults)
 //@   loop 2:
@@ -208,6 +214,9 @@ package policy
 //@   requires noNilRules: forall(c, string, forall(j, has(policy.globalRules, c) && 0 <= j && j < len(policy.globalRules[c]) ==> notNil(policy.globalRules[c][j])))
 //@   requires noNilApps: forall(a, string, has(policy.GitHubApps, a) ==> notNil(policy.GitHubApps[a]))
 //@   assigns ghost faults, policy.verifiersCache, fresh(SignatureVerifier.*), fresh(elems *SignatureVerifier), fresh(elems tuf.Principal), fresh(map map[string][]*SignatureVerifier), fresh(set.Set[string].contents), fresh(map map[string]struct{}), fresh(elems gitobject.Option), fresh(elems sslibdsse.Verifier), fresh(elems sigstoreverifieropts.Option), fresh(elems string), fresh(verifyGitObjectAndAttestationsOptions.*), fresh(rsl.ReferenceEntry.*), fresh(rsl.AnnotationEntry.*), fresh(rsl.PropagationEntry.*), fresh(elems Hash), fresh(elems *rsl.AnnotationEntry), fresh(elems rsl.GetLatestReferenceUpdaterEntryOption), fresh(rsl.GetLatestReferenceUpdaterEntryOptions.*)
+//@   # C11 (block-force-pushes): the previous state a change must descend from is looked up among UNSKIPPED entries
+//@   # (a revoked force push must not become the base of the next one)
+//@   assertcall GetLatestReferenceUpdaterEntry :: [C11] previousStateIsUnskipped: exists i :: 0 <= i && i < len(a1) && isOpt(a1[i], "rsl.IsUnskipped")
 //@   requires [C01,C19] trustedIsEarned: forall i :: 0 <= i && i < len(opts) && isOpt(opts[i], "withTrustedVerifier") && optArg(opts[i], string) != "" ==> verifiedBy(policy, optArg(opts[i], string), gitID)
 //@   assumed err == nil && name != "" ==> verifiedBy(policy, name, gitID)
 //@   # the threshold relaxation of mergeability mode is never applied unless the caller asked for that mode
@@ -378,7 +387,7 @@ package policy
 //@   # the principals a caller pins are real principals (caller input)
 //@   assumecall SignatureVerifier).Verify :: pinnedPrincipals: noNilPs(options.InitialRootPrincipals)
 //@   assigns ghost faults, fresh(State.*), fresh(StateMetadata.*), fresh(policyopts.LoadStateOptions.*), fresh(SignatureVerifier.*), fresh(set.Set[string].contents), fresh(map map[string]struct{}), fresh(elems gitobject.Option), fresh(elems sslibdsse.Verifier), fresh(elems sigstoreverifieropts.Option), fresh(elems string), fresh(elems tuf.Principal), fresh(elems tuf.Rule), fresh(map map[string]bool), fresh(map map[string]tuf.Principal), fresh(gitinterface.Repository.*), fresh(elems rsl.GetLatestReferenceUpdaterEntryOption), fresh(elems rsl.ReferenceUpdaterEntry)
-//@   ensures loaded: err == nil ==> st != nil && st.Metadata != nil && st.repository == repo && notNil(st.loadedEntry) && policyUsable(st)
+//@   ensures loaded: err == nil ==> st != nil && st.Metadata != nil && st.repository == repo && notNil(st.loadedEntry) && policyUsable(st) && noNilControllers(st)
 //@   # the first policy state is returned only after the internal consistency check and, when the caller pins root
 //@   # principals, only if all of them signed its root
 //@   ensures firstStateSelfVerified: err == nil && notNil(firstPolicyEntry) && firstPolicyEntry.GetID() == requestedEntry.GetID() ==> selfVerified(st)
@@ -522,6 +531,9 @@ package policy
 //@ func [C01,C02,C07,C08] (*PolicyVerifier).VerifyRelativeForRef -> (err)
 //@   uses ixshift
 //@   requires v != nil && v.repo != nil && notNil(v.searcher) && notNil(firstEntry) && notNil(lastEntry) && (v.persistentCacheEnabled ==> v.persistentCache != nil)
+//@   requires closedWorld: isUpdater(firstEntry) && isUpdater(lastEntry)
+//@   # option semantics of the log reader (IsReferenceEntry): what it returns for the last-good-state query is a reference entry (C04)
+//@   assumeafter GetLatestReferenceUpdaterEntry :: isNil(r0) || typeIs(r0, *rsl.ReferenceEntry)
 //@   assigns ghost faults, ghost refTip, ghost refSet, ghost objSet, all(State.verifiersCache), all(cache.Persistent.PolicyEntries), all(cache.Persistent.AttestationEntries), all(cache.Persistent.AddedAttestationsBeforeNumber), all(cache.Persistent.LastVerifiedEntryForRef), fresh(elems cache.RSLEntryIndex), fresh(map map[string]cache.RSLEntryIndex), fresh(elems gitstore.TreeEntry), fresh(State.*), fresh(StateMetadata.*), fresh(policyopts.LoadStateOptions.*), fresh(attestations.Attestations.*), fresh(SignatureVerifier.*), fresh(elems *SignatureVerifier), fresh(elems tuf.Principal), fresh(elems tuf.Rule), fresh(map map[string][]*SignatureVerifier), fresh(map map[string]bool), fresh(map map[string]tuf.Principal), fresh(gitinterface.Repository.*), fresh(set.Set[string].contents), fresh(map map[string]struct{}), fresh(elems gitobject.Option), fresh(elems sslibdsse.Verifier), fresh(elems sigstoreverifieropts.Option), fresh(elems string), fresh(verifyGitObjectAndAttestationsOptions.*), fresh(rsl.ReferenceEntry.*), fresh(rsl.AnnotationEntry.*), fresh(rsl.PropagationEntry.*), fresh(elems Hash), fresh(elems *rsl.AnnotationEntry), fresh(elems rsl.GetLatestReferenceUpdaterEntryOption), fresh(rsl.GetLatestReferenceUpdaterEntryOptions.*), fresh(elems verifyGitObjectAndAttestationsOption), fresh(elems rsl.ReferenceUpdaterEntry), fresh(map map[string][]*rsl.AnnotationEntry), fresh(elems *rsl.ReferenceEntry)
 //@   assumed err == nil ==> rangeVerified(firstEntry.GetID(), lastEntry.GetID(), target)
 //@   # C08: verification moves no reference other than the local cache reference
@@ -533,7 +545,7 @@ package policy
 //@     ghost head rsl.ReferenceUpdaterEntry = nil step ite(isNil(invalidEntry), entries[0], nil)
 //@     ghost wasInvalid rsl.ReferenceUpdaterEntry = nil step invalidEntry
 //@     ghost att0 *attestations.Attestations = currentAttestations step att0
-//@     invariant shape: (forall i :: 0 <= i && i < len(entries) ==> notNil(entries[i])) && (forall k string :: has(annotations, k) ==> noNil(annotations[k])) && (currentPolicy != nil ==> stateUsable(currentPolicy)) && (isNil(invalidEntry) || (notNil(invalidEntry) && typeIs(invalidEntry, *rsl.ReferenceEntry)))
+//@     invariant shape: (forall i :: 0 <= i && i < len(entries) ==> notNil(entries[i]) && isUpdater(entries[i])) && (forall k string :: has(annotations, k) ==> noNil(annotations[k])) && (currentPolicy != nil ==> stateUsable(currentPolicy)) && (isNil(invalidEntry) || (notNil(invalidEntry) && typeIs(invalidEntry, *rsl.ReferenceEntry)))
 //@     invariant [C08] refsKept: forall r string :: refTip[r] == old(refTip[r]) && refSet[r] == old(refSet[r])
 //@     # C01: an entry that needs a decision leaves the head of the queue only decided under the policy and attestation
 //@     # state in force when it was met - or as the revoked violation whose repair the next iteration must find (C07)
@@ -547,7 +559,7 @@ package policy
 //@     invariant [C01] onlyRecoveryEndsRecovery: notNil(wasInvalid) ==> isNil(invalidEntry) && isNil(head)
 //@   loop 2:
 //@     ghost e0 []rsl.ReferenceUpdaterEntry = entries step e0
-//@     invariant shape: notNil(invalidEntry) && typeIs(invalidEntry, *rsl.ReferenceEntry) && !fixed && (forall i :: 0 <= i && i < len(entries) ==> notNil(entries[i])) && (forall i :: 0 <= i && i < len(newEntryQueue) ==> notNil(newEntryQueue[i])) && (forall k string :: has(annotations, k) ==> noNil(annotations[k])) && (currentPolicy != nil ==> stateUsable(currentPolicy)) && (forall i :: 0 <= i && i < len(invalidIntermediateEntries) ==> invalidIntermediateEntries[i] != nil)
+//@     invariant shape: notNil(invalidEntry) && typeIs(invalidEntry, *rsl.ReferenceEntry) && !fixed && (forall i :: 0 <= i && i < len(entries) ==> notNil(entries[i]) && isUpdater(entries[i])) && (forall i :: 0 <= i && i < len(newEntryQueue) ==> notNil(newEntryQueue[i]) && isUpdater(newEntryQueue[i])) && (forall k string :: has(annotations, k) ==> noNil(annotations[k])) && (currentPolicy != nil ==> stateUsable(currentPolicy)) && (forall i :: 0 <= i && i < len(invalidIntermediateEntries) ==> invalidIntermediateEntries[i] != nil)
 //@     invariant [C08] refsKept: forall r string :: refTip[r] == old(refTip[r]) && refSet[r] == old(refSet[r])
 //@     invariant remaining: smt("(and (= (slc_arr %1) (slc_arr %2)) (= (+ (slc_off %1) (slc_len %1)) (+ (slc_off %2) (slc_len %2))) (>= (slc_off %1) (slc_off %2)))", bool, entries, e0)
 //@     # C07: every entry for the affected reference passed over while looking for the repair is marked skipped, or is
@@ -568,6 +580,10 @@ package policy
 //@ define latestFor(ref string) Hash = latestRefEntry(refTip[rsl.Ref], ref)
 
 //@ func [C01] (*PolicyVerifier).VerifyRef -> (tip, err)
+//@   # closed world: entries the log readers return are of the module's reference-updater entry types
+//@   assumeafter GetLatestReferenceUpdaterEntry :: isNil(r0) || isUpdater(r0)
+//@   assumeafter GetFirstReferenceUpdaterEntryForRef :: isNil(r0) || isUpdater(r0)
+//@   assumeafter loadRSLReferenceUpdaterEntry :: isNil(r0) || isUpdater(r0)
 //@   requires v != nil && v.repo != nil
 //@   assigns ghost faults, ghost refTip, ghost refSet, ghost objSet, fresh(rsl.ReferenceEntry.*), fresh(rsl.AnnotationEntry.*), fresh(rsl.PropagationEntry.*), fresh(elems Hash), fresh(elems *rsl.AnnotationEntry), fresh(elems rsl.GetLatestReferenceUpdaterEntryOption), fresh(rsl.GetLatestReferenceUpdaterEntryOptions.*)
 //@   # the tip reported is the target of the latest entry for the reference, and exactly that entry was verified
@@ -575,6 +591,10 @@ package policy
 //@   ensures latestVerified: err == nil ==> rangeVerified(old(latestFor(target)), old(latestFor(target)), target)
 
 //@ func [C01] (*PolicyVerifier).VerifyRefFull -> (tip, err)
+//@   # closed world: entries the log readers return are of the module's reference-updater entry types
+//@   assumeafter GetLatestReferenceUpdaterEntry :: isNil(r0) || isUpdater(r0)
+//@   assumeafter GetFirstReferenceUpdaterEntryForRef :: isNil(r0) || isUpdater(r0)
+//@   assumeafter loadRSLReferenceUpdaterEntry :: isNil(r0) || isUpdater(r0)
 //@   requires v != nil && v.repo != nil && (v.persistentCacheEnabled ==> v.persistentCache != nil)
 //@   assigns ghost faults, ghost refTip, ghost refSet, ghost objSet, fresh(rsl.ReferenceEntry.*), fresh(rsl.AnnotationEntry.*), fresh(rsl.PropagationEntry.*), fresh(elems Hash), fresh(elems *rsl.AnnotationEntry), fresh(elems rsl.GetLatestReferenceUpdaterEntryOption), fresh(rsl.GetLatestReferenceUpdaterEntryOptions.*)
 //@   ensures tipIsLatestTarget: err == nil ==> old(refSet[rsl.Ref]) && old(hasRefEntry(refTip[rsl.Ref], target)) && tip == pTarget(cmsg(old(latestFor(target))))
@@ -584,6 +604,10 @@ package policy
 //@   ensures startsAtFirstWithoutCache: err == nil && !v.persistentCacheEnabled ==> firstEntry.GetRefName() == target
 
 //@ func [C01] (*PolicyVerifier).VerifyRefFromEntry -> (tip, err)
+//@   # closed world: entries the log readers return are of the module's reference-updater entry types
+//@   assumeafter GetLatestReferenceUpdaterEntry :: isNil(r0) || isUpdater(r0)
+//@   assumeafter GetFirstReferenceUpdaterEntryForRef :: isNil(r0) || isUpdater(r0)
+//@   assumeafter loadRSLReferenceUpdaterEntry :: isNil(r0) || isUpdater(r0)
 //@   requires v != nil && v.repo != nil
 //@   assigns ghost faults, ghost refTip, ghost refSet, ghost objSet, fresh(rsl.ReferenceEntry.*), fresh(rsl.AnnotationEntry.*), fresh(rsl.PropagationEntry.*), fresh(elems Hash), fresh(elems *rsl.AnnotationEntry), fresh(elems rsl.GetLatestReferenceUpdaterEntryOption), fresh(rsl.GetLatestReferenceUpdaterEntryOptions.*)
 //@   ensures tipIsLatestTarget: err == nil ==> old(refSet[rsl.Ref]) && old(hasRefEntry(refTip[rsl.Ref], target)) && tip == pTarget(cmsg(old(latestFor(target))))
@@ -643,7 +667,7 @@ package policy
 //@ func ext:pkg/rsl.GetReferenceUpdaterEntriesInRangeForRef -> (es, anns, err)
 //@   trusted
 //@   assigns ghost faults, fresh(rsl.ReferenceEntry.*), fresh(rsl.AnnotationEntry.*), fresh(rsl.PropagationEntry.*), fresh(elems Hash), fresh(elems *rsl.AnnotationEntry), fresh(elems rsl.ReferenceUpdaterEntry), fresh(map map[string][]*rsl.AnnotationEntry)
-//@   ensures err == nil ==> (forall i :: 0 <= i && i < len(es) ==> notNil(es[i])) && (forall k string :: has(anns, k) ==> noNil(anns[k]))
+//@   ensures err == nil ==> (forall i :: 0 <= i && i < len(es) ==> notNil(es[i]) && isUpdater(es[i])) && (forall k string :: has(anns, k) ==> noNil(anns[k]))
 //@ func ext:(*internal/cache.Persistent).InsertPolicyEntryNumber
 //@   trusted
 //@   assigns all(cache.Persistent.PolicyEntries), fresh(elems cache.RSLEntryIndex)
@@ -653,6 +677,50 @@ package policy
 //@ func ext:(*internal/cache.Persistent).SetLastVerifiedEntryForRef
 //@   trusted
 //@   assigns all(cache.Persistent.LastVerifiedEntryForRef), fresh(map map[string]cache.RSLEntryIndex)
+//@ # closed world: the module's reference-updater entry types
+//@ define isUpdater(e rsl.ReferenceUpdaterEntry) bool = typeIs(e, *rsl.ReferenceEntry) || typeIs(e, *rsl.PropagationEntry)
 //@ define stateUsable(st *State) bool = st.Metadata != nil && st.repository != nil && noNilControllers(st) && policyUsable(st)
 //@ define annsOf(anns map[string][]*rsl.AnnotationEntry, e *rsl.ReferenceEntry) []*rsl.AnnotationEntry = anns[e.ID.String()]
 //@ define needsDecision(e rsl.ReferenceUpdaterEntry) bool = notNil(e) && typeIs(e, *rsl.ReferenceEntry) && as(e, *rsl.ReferenceEntry).RefName != PolicyStagingRef && !isGittufManaged(as(e, *rsl.ReferenceEntry).RefName)
+
+//@ # ---- C11 / C13: what a loaded state derives from its metadata (preprocess) ----
+//@ define ctrlRules(s *State, c string) []tuf.GlobalRule = rmGlobalRules(rootMD(s.ControllerMetadata[c].RootEnvelope, false))
+//@ # every rule of the rule file `role` other than the allow rule has its name in the state's rule-name set
+//@ define namesRecorded(s *State, role string, upTo int) bool = forall j :: 0 <= j && j < upTo && rID(rulesOfRole(s, role)[j]) != tuf.AllowRuleName ==> setHas(s.ruleNames, rID(rulesOfRole(s, role)[j]))
+//@ func [C11,C13] (*State).preprocess -> (err)
+//@   requires s != nil && s.Metadata != nil && noNilControllers(s)
+//@   # controllers are stored under their (non-empty) names; the empty name is the repository's own slot
+//@   requires namedControllers: !has(s.ControllerMetadata, "")
+//@   assigns s.Hooks, s.globalRules, s.allPrincipals, s.GitHubApps, s.ruleNames, s.hasFileRule, fresh(set.Set[string].contents), fresh(map map[string]struct{}), fresh(map map[string]tuf.Principal), fresh(map map[tuf.HookStage][]tuf.Hook), fresh(map map[string][]tuf.GlobalRule), fresh(elems tuf.Hook)
+//@   # C11: the global rules of the repository's own root and of every controller are all in force after loading
+//@   ensures [C11] ownGlobalRulesKept: err == nil && len(rmGlobalRules(rootOfState(s))) > 0 ==> has(s.globalRules, "") && s.globalRules[""] == rmGlobalRules(rootOfState(s))
+//@   ensures [C11] controllerGlobalRulesKept: err == nil ==> forall c string :: has(s.ControllerMetadata, c) && c != "" && len(ctrlRules(s, c)) > 0 ==> has(s.globalRules, c) && s.globalRules[c] == ctrlRules(s, c)
+//@   # C13: every rule name of every rule file is recorded (the repository API refuses a new rule whose name is recorded)
+//@   ensures [C13] primaryRuleNamesRecorded: err == nil && s.Metadata.TargetsEnvelope != nil ==> namesRecorded(s, TargetsRoleName, len(rulesOfRole(s, TargetsRoleName)))
+//@   ensures [C13] delegatedRuleNamesRecorded: err == nil && s.Metadata.TargetsEnvelope != nil ==> forall role string :: has(s.Metadata.DelegationEnvelopes, role) && role != TargetsRoleName ==> namesRecorded(s, role, len(rulesOfRole(s, role)))
+//@   loop 1:
+//@     invariant own: s.allPrincipals != nil && (len(rmGlobalRules(rootOfState(s))) > 0 ==> has(s.globalRules, "") && s.globalRules[""] == rmGlobalRules(rootOfState(s)))
+//@   loop 2:
+//@     invariant own: s.allPrincipals != nil && s.ruleNames != nil && s.ruleNames.contents != nil && fresh(s.ruleNames) && fresh(s.ruleNames.contents) && s.Metadata.TargetsEnvelope != nil && (len(rmGlobalRules(rootOfState(s))) > 0 ==> has(s.globalRules, "") && s.globalRules[""] == rmGlobalRules(rootOfState(s)))
+//@   loop 3:
+//@     invariant own: s.allPrincipals != nil && s.ruleNames != nil && s.ruleNames.contents != nil && fresh(s.ruleNames) && fresh(s.ruleNames.contents) && s.Metadata.TargetsEnvelope != nil && (len(rmGlobalRules(rootOfState(s))) > 0 ==> has(s.globalRules, "") && s.globalRules[""] == rmGlobalRules(rootOfState(s)))
+//@     invariant primary: namesRecorded(s, TargetsRoleName, rangeindex + 1)
+//@   loop 4:
+//@     cut
+//@   loop 5:
+//@     invariant own: s.allPrincipals != nil && s.ruleNames != nil && s.ruleNames.contents != nil && fresh(s.ruleNames) && fresh(s.ruleNames.contents) && s.Metadata.TargetsEnvelope != nil && (len(rmGlobalRules(rootOfState(s))) > 0 ==> has(s.globalRules, "") && s.globalRules[""] == rmGlobalRules(rootOfState(s)))
+//@     invariant primary: namesRecorded(s, TargetsRoleName, len(rulesOfRole(s, TargetsRoleName)))
+//@     invariant delegated: forall role string :: visited(role) && role != TargetsRoleName ==> namesRecorded(s, role, len(rulesOfRole(s, role)))
+//@   loop 6:
+//@     invariant own: s.allPrincipals != nil
+//@   loop 7:
+//@     invariant own: s.allPrincipals != nil && s.ruleNames != nil && s.ruleNames.contents != nil && fresh(s.ruleNames) && fresh(s.ruleNames.contents) && s.Metadata.TargetsEnvelope != nil && (len(rmGlobalRules(rootOfState(s))) > 0 ==> has(s.globalRules, "") && s.globalRules[""] == rmGlobalRules(rootOfState(s)))
+//@     invariant primary: namesRecorded(s, TargetsRoleName, len(rulesOfRole(s, TargetsRoleName)))
+//@     invariant delegated: forall role string :: visited(role) && role != delegatedRoleName && role != TargetsRoleName ==> namesRecorded(s, role, len(rulesOfRole(s, role)))
+//@     invariant current: namesRecorded(s, delegatedRoleName, rangeindex + 1)
+//@   loop 8:
+//@     cut
+//@   loop 9:
+//@     invariant own: len(rmGlobalRules(rootOfState(s))) > 0 ==> has(s.globalRules, "") && s.globalRules[""] == rmGlobalRules(rootOfState(s))
+//@     invariant names: s.Metadata.TargetsEnvelope != nil ==> namesRecorded(s, TargetsRoleName, len(rulesOfRole(s, TargetsRoleName))) && (forall role string :: has(s.Metadata.DelegationEnvelopes, role) && role != TargetsRoleName ==> namesRecorded(s, role, len(rulesOfRole(s, role))))
+//@     invariant controllers: forall c string :: visited(c) && c != "" && len(ctrlRules(s, c)) > 0 ==> has(s.globalRules, c) && s.globalRules[c] == ctrlRules(s, c)
